@@ -255,62 +255,43 @@ def fresh_cached(z, u):
 
 
 def check_histories(acc, zc, z, u, L, lo, hi):
-    """Operation histories on the zone-interval cache, derived from its constants.  For every walked transition T whose UTC day is the first
-    or the last day of a cache period, fresh cached zones are asked, for each aliased instant a in {T + 512, T + 1024, T-1ns - 512,
-    T-1ns - 1024 periods} (same cache slot as T's period):
-        a, then around T ascending (end of the previous day, 00:00 of T's day, T-1ns, T, T+1ns, end of T's day, 00:00 of the next day)
-        a, then around T descending (for the two nearest aliases)
-    and once each: around T ascending / descending followed by all aliases.
-    Every answer must be the interval the uncached zone gives for that instant."""
+    """Operation histories on the zone-interval cache (vf.models.zonewalk.cache_order_histories: period-edge transitions with the neighbouring /
+    aliased period asked first, and intervals longer than 512 periods with an aliased earlier period asked first), each replayed on a fresh
+    cached zone.  Every answer must be the interval the walked list / the uncached zone gives for that instant."""
     zid = zc.zid
     idx = zw.Index(L)
-    span = CACHE_PERIOD_DAYS * CACHE_SLOTS * DAY_NS
-    for k in range(1, len(L)):
-        T = L[k][0]
-        if T is None or not (lo <= T <= hi):
-            continue
-        day = T // DAY_NS
-        if day % CACHE_PERIOD_DAYS not in (0, CACHE_PERIOD_DAYS - 1):
-            continue
-        d0 = day * DAY_NS
-        local = [q for q in (d0 - 1, d0, T - 1, T, T + 1, d0 + DAY_NS - 1, d0 + DAY_NS) if MIN_NS <= q <= MAX_NS]
-        local = sorted(set(local))
-        alias = [q for q in (T + span, T + 2 * span, T - 1 - span, T - 1 - 2 * span) if MIN_NS <= q <= MAX_NS]
-        want = {}
-        try:
-            for q in alias + local:
-                # inside the walked stretch the walked list (already shown equal to the uncached zone's) is the oracle
-                want[q] = L[idx.at(q)] if idx.covers(q, q) else zw.iv_tuple(u.get_zone_interval(zw.mk_instant(q)))
-        except Exception as ex:  # noqa: BLE001
-            acc.lib_exception("C04/history-raw/%s" % zid, ex, _case(zid, instant_ns=T))
-            continue
-        acc.count(evaluations=len(want))
-        acc.outcome("cache-history:transition-on-%s-day-of-a-period" % ("first" if day % CACHE_PERIOD_DAYS == 0 else "last"))
-        # one stale node at a time: a later alias would overwrite the slot before T's period is asked for
-        histories = []
-        for a_q in alias:
-            histories.append(("alias %s then ascending" % zw.fmt_ns(a_q)[:10], [a_q] + local))
-            if abs(a_q - T) <= span + 1:          # descending order only after the nearest aliases (+-512 periods)
-                histories.append(("alias %s then descending" % zw.fmt_ns(a_q)[:10], [a_q] + local[::-1]))
-        histories.append(("ascending then all aliases", local + alias))
-        histories.append(("descending then all aliases", local[::-1] + alias[::-1]))
-        for name, seq in histories:
-            f = fresh_cached(z, u)
-            if f is None:
-                acc.degrade("fresh caching wrapper not constructible (_CachedDateTimeZone._for_zone): cache-order histories skipped")
-                return
-            for i, q in enumerate(seq):
-                try:
-                    got = zw.iv_tuple(f.get_zone_interval(zw.mk_instant(q)))
-                except Exception as ex:  # noqa: BLE001
-                    acc.lib_exception("C04/history/%s" % zid, ex, _case(zid, instant_ns=q, history=seq[:i + 1]))
-                    break
-                acc.count(evaluations=1, transitions=1)
-                if got != want[q]:
-                    zc.v("history", lambda: "fresh cached zone asked in turn about %s: the answer for %s is %s, the uncached zone says %s (transition at %s, history %s)" % (
-                        [zw.fmt_ns(x) for x in seq[:i + 1]], zw.fmt_ns(q), zw.fmt_iv(got), zw.fmt_iv(want[q]), zw.fmt_ns(T), name),
-                        instant_ns=q, history=list(seq[:i + 1]), py=_py_history(zid, seq[:i + 1], want[q]))
-                    break
+    want = {}
+
+    def oracle(q):
+        if q not in want:
+            # inside the walked stretch the walked list (already shown equal to the uncached zone's) is the oracle
+            want[q] = L[idx.at(q)] if idx.covers(q, q) else zw.iv_tuple(u.get_zone_interval(zw.mk_instant(q)))
+            acc.count(evaluations=1)
+        return want[q]
+
+    last_anchor = None
+    for anchor, kind, name, seq in zw.cache_order_histories(L, lo, hi, full=True):
+        if anchor != last_anchor:
+            last_anchor = anchor
+            want.clear()
+            acc.outcome("cache-history:" + kind)
+        f = fresh_cached(z, u)
+        if f is None:
+            acc.degrade("fresh caching wrapper not constructible (_CachedDateTimeZone._for_zone): cache-order histories skipped")
+            return
+        for i, q in enumerate(seq):
+            try:
+                exp = oracle(q)
+                got = zw.iv_tuple(f.get_zone_interval(zw.mk_instant(q)))
+            except Exception as ex:  # noqa: BLE001
+                acc.lib_exception("C04/history/%s" % zid, ex, _case(zid, instant_ns=q, history=seq[:i + 1]))
+                break
+            acc.count(evaluations=1, transitions=1)
+            if got != exp:
+                zc.v("history", lambda: "fresh cached zone asked in turn about %s: the answer for %s is %s, the uncached zone says %s (%s at %s; %s)" % (
+                    [zw.fmt_ns(x) for x in seq[:i + 1]], zw.fmt_ns(q), zw.fmt_iv(got), zw.fmt_iv(exp), kind, zw.fmt_ns(anchor), name),
+                    instant_ns=q, history=list(seq[:i + 1]), py=_py_history(zid, seq[:i + 1], exp))
+                break
 
 
 ROUTE_EVERY = 8          # every 8th walked interval (fixed residue: the selection does not depend on the seed)
